@@ -23,7 +23,7 @@ func init() {
 				"command argument, call argument, nested function argument, either operand, unary operand; evaluated and short-circuited positions); one fault per program, and any two faults one after the other (typed faults; quick: the first 33 of them); all in-range choice sequences; 3 further calls after every error; " +
 				"non-trivial = every case (each plants at least one fault)",
 			StatesMean:  "(program, trace prefix) pairs; transitions = real Next calls",
-			Assumptions: []string{"small-scope hypothesis", "a fault in an always-evaluated position must yield an error at that step; in a conditionally evaluated position only 'no panic' is demanded", "dice(x) must fail for x<1, NaN or |x|>=2^63; random_range(a,b) for a>b, NaN or |bound|>=2^63; other argument values need only not panic"},
+			Assumptions: []string{"small-scope hypothesis", "a fault in an always-evaluated position must yield an error at that step; in a conditionally evaluated position only 'no panic' is demanded", "after a failing statement other than an option group the dialogue goes on with the statement that follows it (as the pinned tree does; C10 states it for commands): the strict walk compares the rest of every path under that reading (clauses after-error-*)", "dice(x) must fail for x<1, NaN or |x|>=2^63; random_range(a,b) for a>b, NaN or |bound|>=2^63; other argument values need only not panic"},
 		},
 		QuickBudget: 180 * time.Second, ThoroughBudget: 14 * time.Minute, CrashIsViolation: true,
 		Run: runC06,
@@ -251,7 +251,7 @@ func c06Run(ctx *report.Ctx, c *explore.Chooser, partName string, p *yc.Program,
 	}
 	// 2. the fault must surface as an error at its step
 	wo := yc.WalkOpts{MaxSteps: 10, MaxJumps: 3, StrictErrors: true, AfterError: 3, Flags: yc.Flags{IgnoreText: true},
-		Refusals: append(refusals, 0)[0],
+		Refusals: append(refusals, 0)[0], ContinueAfterError: true,
 		Setup: func(r *yc.Real, log *[]string) {
 			r.DR.ConvertAndAddFunction("conv", func(i int, s string) int { return i + len(s) })
 			r.DR.ConvertAndAddFunction("convv", func(i int, rest ...string) string { return fmt.Sprint(i, rest) })
